@@ -271,6 +271,15 @@ fn scale_agreement(out: &mut Out, r: &mut Rng) {
         let (p, p2, z, zp) = match step { Ok(v) => v, Err(_) => { out.raw("!NOTE ckks_scale_agree parameter set skipped (setup refused)"); continue } };
         let (s1, s2) = (p.scale(), z.scale());
         let rel = ((s1 - s2) / s2).abs();
+        // the agreement rule itself against the exact-arithmetic model (`ckks_scales_close <bits> <bits>`): the natural pair, and scales set
+        // directly a few units in the last place apart (the boundary of the one-epsilon tolerance), further apart, and across a binade
+        { let mut pairs: Vec<(f64, f64)> = vec![(s1, s2), (s2, s1), (s1, p2.scale())];
+          for base in [scale, s1, 3.0 * scale / 2.0, scale * (2.0 - f64::EPSILON)] { for k in [0u64, 1, 2, 3, 5, 1 << 10, 1 << 30] { pairs.push((base, f64::from_bits(base.to_bits() + k))); pairs.push((f64::from_bits(base.to_bits() + k), base)); } }
+          for (a, b) in pairs {
+              out.case(&format!("ckks_scales_close {} {}", a.to_bits(), b.to_bits()), &format!("scales-close-{}", if a == b { "equal" } else if ((a - b) / b).abs() < 1e-15 { "ulps" } else { "apart" }), || {
+                  let mut x = p.clone(); x.set_scale(a); let mut y = p2.clone(); y.set_scale(b);
+                  (std::panic::catch_unwind(std::panic::AssertUnwindSafe(|| { let _ = ev.add_new(&x, &y); })).is_ok() as u8).to_string() });
+          } }
         let cls = format!("scale-agree-n{}-b{}", n, pb);
         // bit-identical scales must be accepted
         if p.scale().to_bits() == p2.scale().to_bits() {
